@@ -15,7 +15,7 @@ ASSUMPTIONS = [
     "solvability = completion within 8n+60 mask-confined steps under two chooser regimes",
     "DPP/MDPP generators need chip data files that are unavailable offline: not covered",
 ]
-REQUIRED_COUNTERS = ["c18_batches", "c18_predicates", "c18_episodes"]
+REQUIRED_COUNTERS = ["c18_batches", "c18_predicates", "c18_episodes", "c18_initial_solutions"]
 MIN_NONTRIVIAL = {"quick": 400, "thorough": 6000}
 WORKERS = {"quick": 14, "thorough": 16}
 BUDGET_S = {"quick": 400, "thorough": 3000}
@@ -67,20 +67,27 @@ def cases(tier, seed):
         for B in (1, 2):
             for r in range(reps * 2):
                 out.append(dict(cfg=cfg, B=B, s=rnd.randrange(10**6)))
+    # initial solutions of the improvement environments, both documented construction modes
+    for env_ in ("tsp_kopt", "pdp_ruin_repair"):
+        for mode in ("random", "greedy"):
+            for n in ((6, 10, 20) if q else (4, 6, 10, 20, 50)):
+                for r in range(reps):
+                    out.append(dict(kind="init", env=env_, n=n, init=mode, B=16, s=rnd.randrange(10**6)))
     return out
 
 
 def run_case(ctx, case):
     from vlib import c18impl
 
-    c18impl.case(ctx, case)
+    (c18impl.init_case if case.get("kind") == "init" else c18impl.case)(ctx, case)
 
 
 MANIFEST = {
     "text": "Every generated batch observed (19 generators x parameter grids x seeds) satisfied the documented predicates - keys, "
             "shapes, bounds, integer demands <= capacity, capacity table incl. off-table sizes and overrides, CVRPTW window "
             "order/reachability/return time (scaled and unscaled), ATSP triangle inequality, SVRP coverage, MTVRP preset "
-            "flags and limits, FJSP/JSSP eligibility and padding, MCP set hygiene - and every instance completed under two "
+            "flags and limits, FJSP/JSSP eligibility and padding, MCP set hygiene, initial tours of the improvement envs (random and greedy construction: one cycle through all nodes, "
+            "pickups before deliveries) - and every instance completed under two "
             "mask-confined chooser regimes. Exploration over seeds x parameterisations.",
     "note": "Predicates are evaluated by the harness on the raw generator output; solvability reuses the C02 episode driver.",
     "technique": "runtime monitoring: predicate monitors on every generator output + bounded-progress episode monitor",
